@@ -1127,6 +1127,21 @@ def analyse_builder(prog, F, W, fn):
                 for x in (src.walk() if src is not None else ()):
                     if x.k == 'DeclRefExpr' and x.decl_id is not None and x.decl_id != mv and prog.rec_name(prog.vars[x.decl_id]['ty']) == 'std::vector':
                         vecs.add(x.decl_id)
+                if not vecs and mv is not None and prog.vars[mv].get('fn') not in (None, f.fref_id) and f is not fn:
+                    # the map is captured from the enclosing function: is f the body of a TBB parallel algorithm?
+                    par_body = False
+                    for x in fn.walk():
+                        if x.k == 'CallExpr' and x.callee and x.callee['g'] in ('tbb::parallel_for', 'tbb::parallel_reduce', 'oneapi::tbb::parallel_for',
+                                                                             'oneapi::tbb::parallel_reduce', 'tbb::detail::d1::parallel_for', 'tbb::detail::d1::parallel_reduce'):
+                            for y in x.walk():
+                                if y.k == 'LambdaExpr' and f.fref_id in (y.j.get('lambda_ops') or ()):
+                                    par_body = True
+                    if par_body:
+                        probs.append('`%s` is declared outside the task body and captured by reference: all tasks of the parallel loop run their searches on the same '
+                                     'distance / predecessor storage (data race, paths of one edge overwritten by another)' % prog.vars[mv]['name'])
+                    else:
+                        und.append('`%s` is captured from the enclosing function' % prog.vars[mv]['name'])
+                    continue
                 if not vecs:
                     und.append('storage behind `%s` not found' % n.args()[ai].text(20))
                     continue
